@@ -257,6 +257,16 @@ def run_maximum_principle(spec):
                 v.append(r.core.coolant_gap_temp.ravel())
             return np.concatenate(v)
 
+        def envelope_temps(regs):
+            # the duct walls are part of the state the next level is computed from (the six-node model advances the
+            # coolant with the walls of the previous level), so they belong to the envelope
+            v = [all_temps(regs)]
+            for reg in regs:
+                for key in ("duct_mw", "duct_surf"):
+                    if key in reg.temp:
+                        v.append(np.asarray(reg.temp[key]).ravel())
+            return np.concatenate(v)
+
         if mode == "relax":
             fld = spec["_field"]
             r.axial_step0()
@@ -269,7 +279,7 @@ def run_maximum_principle(spec):
             if r.core.model is not None:
                 n = r.core.coolant_gap_temp.size
                 r.core.coolant_gap_temp[:] = T0 + fld["amp"] * (1 + np.sin(0.5 + fld["freq"] * np.arange(n)))
-            t = all_temps([a.active_region for a in r.assemblies])
+            t = envelope_temps([a.active_region for a in r.assemblies])
             lo[0], hi[0] = float(t.min()), float(t.max())
 
         steps = [0]
@@ -277,7 +287,7 @@ def run_maximum_principle(spec):
 
         def after(i, z, dz, regs):
             steps[0] += 1
-            t = all_temps(regs)
+            t = envelope_temps(regs) if mode == "relax" else all_temps(regs)
             tmin, tmax = float(t.min()), float(t.max())
             if mode == "zero":
                 d = max(abs(tmin - T0), abs(tmax - T0))
